@@ -570,6 +570,22 @@ pub fn query<A: HC>(q: &str, t: &mut Toks) -> R<String> {
                 content(&v) == content(&fresh)
             )
         }
+        "eqwin" => {
+            // two windows of the SAME parent value (same allocation), compared with a slice pairing
+            let pr = t.next()?.to_string();
+            let (a1, b1, a2, b2) = (t.num()?, t.num()?, t.num()?, t.num()?);
+            let v = eval_v::<A>(&parse_v(t)?)?;
+            let x: &SeqSlice<A> = &v[a1..b1];
+            let y: &SeqSlice<A> = &v[a2..b2];
+            let r = match pr.as_str() {
+                "slice_slice" => PartialEq::<SeqSlice<A>>::eq(x, y),
+                "refslice_slice" => PartialEq::<SeqSlice<A>>::eq(&x, y),
+                "refslice_refslice" => x == y,
+                "ne" => !(x != y),
+                _ => return Err(Fail::BadOp("pairing".into())),
+            };
+            format!("{r} {}", if r { format!("{}", hash_events(x) == hash_events(y)) } else { "-".to_string() })
+        }
         "hasheq" => {
             // equal slices feed identical data to a hasher (relational: the hash format itself is free)
             let a = parse_s(t)?;
